@@ -25,7 +25,12 @@ struct Op {
 }
 
 fn enc_ops(ops: &[Op]) -> String {
-    let mut s = String::from("coll");
+    enc_ops_as("coll", ops)
+}
+/// `srun …`: the same history, the model running the script commands of `SOURCE_RUN` from their
+/// regenerated script.ds (lean/DuckModel/Drv/C12S.lean) instead of their specified function
+fn enc_ops_as(op: &str, ops: &[Op]) -> String {
+    let mut s = String::from(op);
     for o in ops {
         s.push(' ');
         s.push_str(&o.cmd);
@@ -51,6 +56,9 @@ fn dec_ops(req: &str) -> Vec<Op> {
 // ---------------------------------------------------------------- running the real SDK
 
 const SCRIPT_CMDS: [&str; 9] = ["array_is_empty", "array_contains", "array_concat", "array_join", "map_contains_key", "map_contains_value", "map_is_empty", "set_from_array", "set_is_empty"];
+
+/// script commands the model can run from source (Sdk/ScriptRun.lean, theorems C12_script_*_correct)
+const SOURCE_RUN: [&str; 7] = ["array_is_empty", "map_is_empty", "set_is_empty", "map_contains_key", "set_from_array", "array_concat", "map_contains_value"];
 
 fn handles(ctx: &Context) -> Option<&HashMap<String, StateValue>> {
     match ctx.state.get("handles") {
@@ -355,6 +363,8 @@ struct Gen<'a> {
     tracks: Vec<Track>,
     safe: bool,
     with_scripts: bool,
+    /// `srun` history: of the script commands only those of `SOURCE_RUN`, and more of them
+    srun: bool,
     keys_used: Vec<String>,
     tags: Vec<&'static str>,
 }
@@ -453,6 +463,16 @@ impl<'a> Gen<'a> {
         // bias towards creation while few handles exist
         if self.live_count() < 2 && self.rng.chance(1, 2) {
             c = [0, 9, 16][self.rng.below(3)];
+        } else if self.srun {
+            if self.rng.chance(1, 3) {
+                c = [33, 35, 37, 38, 39, 40, 41][self.rng.below(7)];
+            }
+            // array_contains / array_join are not source-runnable (calc, strlen, substring)
+            c = match c {
+                34 => 33,
+                36 => 41,
+                other => other,
+            };
         }
         match c {
             0 if can_create => {
@@ -725,19 +745,64 @@ impl<'a> Gen<'a> {
 }
 
 fn gen_history(rng: &mut Rng, tier: Tier) -> Case {
-    // two families: native commands only; all 36 commands (same value pools)
-    let with_scripts = rng.chance(1, 2);
+    // three families: native commands only; all 36 commands (same value pools); `srun` = natives +
+    // the script commands the model runs from their script.ds
+    let srun = rng.chance(1, 4);
+    let with_scripts = srun || rng.chance(1, 2);
     let maxlen = if tier == Tier::Quick { 40 } else { 80 };
     let len = 1 + rng.below(maxlen);
-    let mut g = Gen { rng, ops: vec![], tracks: vec![], safe: false, with_scripts, keys_used: vec![], tags: vec![] };
+    let mut g = Gen { rng, ops: vec![], tracks: vec![], safe: false, with_scripts, srun, keys_used: vec![], tags: vec![] };
     while g.ops.len() < len {
         g.step();
     }
     let mut tags = g.tags.clone();
     tags.sort();
     tags.dedup();
-    tags.push(if with_scripts { "all-36-commands" } else { "native-commands-only" });
-    Case { req: enc_ops(&g.ops), in_domain: true, nontrivial: g.ops.len() >= 5, tags }
+    tags.push(if srun { "source-run-scripts" } else if with_scripts { "all-36-commands" } else { "native-commands-only" });
+    let req = if srun { enc_ops_as("srun", &g.ops) } else { enc_ops(&g.ops) };
+    Case { req, in_domain: true, nontrivial: g.ops.len() >= 5, tags }
+}
+
+/// every fixed history whose script commands are all source-runnable (and that has one), as `srun`
+fn srun_fixed(base: &[Case]) -> Vec<Case> {
+    let mut out = vec![];
+    for c in base {
+        let ops = dec_ops(&c.req);
+        let scripts: Vec<&Op> = ops.iter().filter(|o| is_script_cmd(&o.cmd)).collect();
+        if scripts.is_empty() || !scripts.iter().all(|o| SOURCE_RUN.contains(&o.cmd.as_str())) {
+            continue;
+        }
+        let mut tags = c.tags.clone();
+        tags.push("source-run-scripts");
+        out.push(Case { req: enc_ops_as("srun", &ops), in_domain: true, nontrivial: true, tags });
+    }
+    // every pool value as map key / member through the source-run commands, too few arguments,
+    // a key whose value is the empty string, calls in a row (the temporary array must be gone)
+    for v in SAFE_VALUES.iter().chain(ODD_VALUES.iter()) {
+        let ops = vec![
+            Op { cmd: "map".into(), args: vec![] },
+            Op { cmd: "map_is_empty".into(), args: vec![Arg::Ref(0)] },
+            Op { cmd: "map_put".into(), args: vec![Arg::Ref(0), lit(v), lit("")] },
+            Op { cmd: "map_contains_key".into(), args: vec![Arg::Ref(0), lit(v)] },
+            Op { cmd: "map_contains_key".into(), args: vec![Arg::Ref(0), lit("absent")] },
+            Op { cmd: "map_contains_key".into(), args: vec![Arg::Ref(0)] },
+            Op { cmd: "map_contains_key".into(), args: vec![lit(v), lit(v)] },
+            Op { cmd: "map_is_empty".into(), args: vec![Arg::Ref(0), lit(v)] },
+            Op { cmd: "array".into(), args: vec![lit(v)] },
+            Op { cmd: "array_is_empty".into(), args: vec![Arg::Ref(8), lit(v), lit("third")] },
+            Op { cmd: "array_is_empty".into(), args: vec![lit(v)] },
+            Op { cmd: "array_pop".into(), args: vec![Arg::Ref(8)] },
+            Op { cmd: "array_is_empty".into(), args: vec![Arg::Ref(8)] },
+            Op { cmd: "set_new".into(), args: vec![lit(v)] },
+            Op { cmd: "set_is_empty".into(), args: vec![Arg::Ref(13)] },
+            Op { cmd: "set_remove".into(), args: vec![Arg::Ref(13), lit(v)] },
+            Op { cmd: "set_is_empty".into(), args: vec![Arg::Ref(13)] },
+            Op { cmd: "set_is_empty".into(), args: vec![] },
+            Op { cmd: "array".into(), args: vec![lit("after")] },
+        ];
+        out.push(Case { req: enc_ops_as("srun", &ops), in_domain: true, nontrivial: true, tags: vec!["source-run-scripts", "script-commands"] });
+    }
+    out
 }
 
 fn lit(s: &str) -> Arg {
@@ -1048,7 +1113,7 @@ impl Prop for C12Prop {
         "C12"
     }
     fn rule(&self) -> &'static str {
-        "Histories of 1..40 (quick) / 1..80 (thorough) collection commands run from an empty handle table through the real SDK (run_instruction, every value passed in a variable as ${v}), at most 6 live handles of mixed kinds (arrays incl. range / map_keys / set_to_array / array_concat results, maps, sets, nested handles as values). Handle arguments: 65% live right kind, 15% live wrong kind, 10% released, 10% unknown / handle-looking / empty. Indexes inside, at and beyond the end, plus non-numeric / negative / signed / overflowing spellings. Values (cells, keys, set members, separators) from a pool with '', spaces, multi-byte text, handle-looking strings, true/false, numerals, $x ${..} %{..} # quotes CR LF TAB backslash leading '=' and word-like strings; they reach the native AND the nine script-implemented commands alike. Two families: (a) the 27 native commands only, (b) all 36 commands. Fixed cases: every command x {array, map, set, released, unknown, empty handle} followed by a complete read-out; verbatim round trips of every pool value through array/map/set natives; all index spellings; range end points incl. i64 limits; recursive release over nesting, sharing, cycles and self reference. After each history the whole real handle table is read from Context.state (real handles renamed by first appearance, hash-ordered things sorted) and re-read through array_length/array_get, map_size/map_get, set_size/set_contains. The list made by map_keys / set_to_array is sorted in place by the harness (hash iteration order is unspecified). Literal values of the form handle:<decimal> are not generated (that is the model's name for the k-th handle; real handles are renamed to it). Non-trivial = at least 5 commands; distinct = distinct request."
+        "Histories of 1..40 (quick) / 1..80 (thorough) collection commands run from an empty handle table through the real SDK (run_instruction, every value passed in a variable as ${v}), at most 6 live handles of mixed kinds (arrays incl. range / map_keys / set_to_array / array_concat results, maps, sets, nested handles as values). Handle arguments: 65% live right kind, 15% live wrong kind, 10% released, 10% unknown / handle-looking / empty. Indexes inside, at and beyond the end, plus non-numeric / negative / signed / overflowing spellings. Values (cells, keys, set members, separators) from a pool with '', spaces, multi-byte text, handle-looking strings, true/false, numerals, $x ${..} %{..} # quotes CR LF TAB backslash leading '=' and word-like strings; they reach the native AND the nine script-implemented commands alike. Three families: (a) the 27 native commands only, (b) all 36 commands, (c) `srun` requests (1 in 4): natives + array_is_empty / map_is_empty / set_is_empty / map_contains_key / set_from_array / array_concat / map_contains_value, which the model executes FROM THEIR REGENERATED script.ds (AliasCommand::run over eval_instructions over the parsed text, native callees and for-in / if / end / not transcribed, flow-control state kept across invocations) instead of by their specified function - so the recorded array_concat-after-error behaviour is the MODEL's behaviour in this family; every fixed history whose script commands are of these seven is also sent as srun. Fixed cases: every command x {array, map, set, released, unknown, empty handle} followed by a complete read-out; verbatim round trips of every pool value through array/map/set natives; all index spellings; range end points incl. i64 limits; recursive release over nesting, sharing, cycles and self reference. After each history the whole real handle table is read from Context.state (real handles renamed by first appearance, hash-ordered things sorted) and re-read through array_length/array_get, map_size/map_get, set_size/set_contains. The list made by map_keys / set_to_array is sorted in place by the harness (hash iteration order is unspecified). Literal values of the form handle:<decimal> are not generated (that is the model's name for the k-th handle; real handles are renamed to it). Non-trivial = at least 5 commands; distinct = distinct request."
     }
     fn budget(&self, tier: Tier) -> usize {
         match tier {
@@ -1059,6 +1124,8 @@ impl Prop for C12Prop {
     fn fixed_cases(&self, _tier: Tier) -> Vec<Case> {
         let mut v = confusion_cases();
         v.extend(fixed_histories());
+        let s = srun_fixed(&v);
+        v.extend(s);
         v
     }
     fn generate(&self, rng: &mut Rng, tier: Tier) -> Case {
@@ -1139,7 +1206,6 @@ impl Prop for C12Prop {
     }
 }
 
-#[allow(dead_code)]
 fn is_script_cmd(c: &str) -> bool {
     SCRIPT_CMDS.contains(&c)
 }
